@@ -4262,3 +4262,99 @@ func runLowerBoundNeedsLowerEvidence(rr *RuleRun) {
 		}
 	})
 }
+
+// ---------------------------------------------------------------------------
+// C12.iterators-advance-in-step
+
+func init() {
+	register(&Rule{
+		ID: "C12.iterators-advance-in-step", Prop: "C12", Also: []string{"C11"}, Floor: 1, Controls: 0,
+		Doc: "where one pass of an inner loop advances several element iterators kept in a slice (iterators[i].Next() for each i) to build one row of arguments, the inner loop is not left early for the next row (a labelled continue / break of the outer loop, or a plain break): leaving after the first unknown argument leaves the remaining iterators one step behind, so every following row pairs members of different positions",
+		Run: runIteratorsAdvanceInStep,
+	})
+}
+
+func runIteratorsAdvanceInStep(rr *RuleRun) {
+	c := rr.Ctx
+	eachFuncBody(c, []string{"cty/function/stdlib"}, func(pkg string, fd *ast.FuncDecl, body *ast.BlockStmt) {
+		info := c.Info(pkg)
+		inspectNoLit(body, func(n ast.Node) bool {
+			var inner *ast.BlockStmt
+			var innerStmt ast.Stmt
+			switch x := n.(type) {
+			case *ast.RangeStmt:
+				inner, innerStmt = x.Body, x
+			case *ast.ForStmt:
+				inner, innerStmt = x.Body, x
+			default:
+				return true
+			}
+			// advances an iterator taken out of an indexed collection: iterators[i].Next() or it := iterators[i]; it.Next()
+			advances := false
+			inspectNoLit(inner, func(m ast.Node) bool {
+				call, ok := m.(*ast.CallExpr)
+				if !ok || !isCall(info, call, "cty.ElementIterator.Next") {
+					return true
+				}
+				recv := ast.Unparen(call.Fun.(*ast.SelectorExpr).X)
+				if _, ok := recv.(*ast.IndexExpr); ok {
+					advances = true
+				}
+				if id, ok := recv.(*ast.Ident); ok {
+					if o := info.Uses[id]; o != nil {
+						if _, idx, rhs := findDefine(info, inner, o); rhs != nil && len(rhs) > idx {
+							if _, ok := ast.Unparen(rhs[idx]).(*ast.IndexExpr); ok {
+								advances = true
+							}
+						}
+					}
+				}
+				return true
+			})
+			if !advances {
+				return true
+			}
+			// the enclosing loop (one row per iteration)
+			var outer ast.Stmt
+			for p := c.Parent(innerStmt); p != nil && p != ast.Node(body); p = c.Parent(p) {
+				switch p.(type) {
+				case *ast.ForStmt, *ast.RangeStmt:
+					if outer == nil {
+						outer = p.(ast.Stmt)
+					}
+				}
+			}
+			if outer == nil {
+				return true
+			}
+			key := fmt.Sprintf("%s.%s/row-loop", pkg, declName(fd))
+			var early *ast.BranchStmt
+			inspectNoLit(inner, func(m ast.Node) bool {
+				br, ok := m.(*ast.BranchStmt)
+				if !ok || early != nil {
+					return true
+				}
+				switch {
+				case br.Label != nil && (br.Tok == token.CONTINUE || br.Tok == token.BREAK):
+					early = br // leaves for the outer loop
+				case br.Tok == token.BREAK && br.Label == nil:
+					// a plain break leaves the inner loop unless it sits in a switch / select / nested loop
+					for p := c.Parent(br); p != nil && p != ast.Node(inner); p = c.Parent(p) {
+						switch p.(type) {
+						case *ast.SwitchStmt, *ast.TypeSwitchStmt, *ast.SelectStmt, *ast.ForStmt, *ast.RangeStmt:
+							return true
+						}
+					}
+					early = br
+				}
+				return true
+			})
+			if early != nil {
+				rr.Violation(key, early.Pos(), "the loop that advances one iterator per argument is left early ('"+early.Tok.String()+"'): the iterators of the remaining arguments are not advanced for this row, so in every following row they deliver the member of the previous position")
+			} else {
+				rr.OK(key, innerStmt.Pos(), "every iterator advances once per row")
+			}
+			return true
+		})
+	})
+}
